@@ -3,6 +3,7 @@
 //! answer attached, for the Lean driver.
 mod gen;
 mod gen2;
+mod laws;
 mod ops;
 mod ops19;
 mod wire;
@@ -39,6 +40,8 @@ fn main() {
                 scale,
                 count: 0,
             };
+            // law instances at sizes beyond the executable model (see laws.rs) come first
+            laws::gen_laws(&mut cx, prop.as_str());
             match prop.as_str() {
                 "C01" => gen::gen_c01(&mut cx),
                 "C02" => gen::gen_c02(&mut cx),
